@@ -11,6 +11,7 @@
 From Coq Require Import NArith ZArith List Bool.
 From SFV Require Import Base.Bytes Base.F64 Msgpack.Wire Read.Lazy Read.ReadRun Read.ReadSpec Read.ReadFuel Read.ReadProofs.
 From SFV Require Import Base.RsPrelude Read.LazyTypes Gen.LazyNewGen Read.LazyNewGenEq.
+From SFV Require Import Gen.LazyLoopsGen Read.ReadSafe Read.ReadRobust Read.LazyLoopsStmt Read.LoopsEq.
 Import ListNotations.
 Open Scope N_scope.
 
@@ -120,3 +121,146 @@ Theorem C01_code_same_res_meaning : forall g h,
                    | _, _ => False
                    end.
 Proof. intros. reflexivity. Qed.
+
+(** * The loops of the lazy reader ARE the code (tie by translation, T8 with [--fuel])
+
+    [Gen/LazyLoopsGen.v] is regenerated on every run from provider/src/read/lazy_value_ref.rs: [ArrayRef::get_at_index],
+    [ObjectRef::get_at_index], [ObjectRef::get_property], the three mutually recursive [finish_processing] and the methods of
+    [LazyValueRef] the exported read functions call ([get_at_index], [get_key_at_index], [get_object_property],
+    [get_value_length], [get_utf8_str_addr]) -- one mutual [Fixpoint] on fuel, every Rust [for] loop a member of it.
+    For every input of bytes that does not fill the address space, every node satisfying the invariant [sane] of reachable
+    reader states ([C01_code_loops_reachable]: every node of every state any call sequence reaches does), every argument, both
+    overflow modes, every hand-model fuel [f] with which the model function does not run out, and every generated fuel
+    [g >= 2 f + k], the translated Rust returns the model function's new node ([conv]), its error code, and a reference that is
+    the element / pair / value at the position the model's handle arithmetic uses; a panic on one side is a panic on the
+    other, and the translation never reports its own [P_fuel].  [len < 2 ^ W] says that the length field is a [usize].
+    ([sim] is spelled out by [C01_code_sim_meaning].) *)
+Theorem C01_code_finish : forall W trap bs, Forall (fun b => b < 256) bs /\ lenN bs + 9 < 2 ^ W /\ 32 <= W ->
+  forall f v p, sane (lenN bs) p (conv v) -> snd (finish W trap f bs (conv v)) <> OutOfFuel ->
+  forall g, (2 * f + 0 <= g)%nat ->
+  sim conv (fun _ (a b : option N) => a = b)
+      (LazyValueRef_finish_processing W trap g v bs) (finish W trap f bs (conv v)).
+Proof. exact loops_finish. Qed.
+
+Theorem C01_code_arr_get : forall W trap bs, Forall (fun b => b < 256) bs /\ lenN bs + 9 < 2 ^ W /\ 32 <= W ->
+  forall f len es e idx p, sane (lenN bs) p (LArr len (map conv es) e) -> len < 2 ^ W ->
+  snd (arr_get W trap f bs len (map conv es) e idx) <> OutOfFuel ->
+  forall g, (2 * f + 1 <= g)%nat ->
+  sim conv_arr (fun a' x (_ : unit) => nthN (ArrayRef_processed_elements a') idx = Some x)
+      (ArrayRef_get_at_index W trap g (mkArrayRef len es e) idx bs)
+      (arr_get W trap f bs len (map conv es) e idx).
+Proof. exact loops_arr_get. Qed.
+
+Theorem C01_code_obj_get : forall W trap bs, Forall (fun b => b < 256) bs /\ lenN bs + 9 < 2 ^ W /\ 32 <= W ->
+  forall f len es e idx p, sane (lenN bs) p (LObj len (map convp es) e) -> len < 2 ^ W ->
+  snd (obj_get W trap f bs len (map convp es) e idx) <> OutOfFuel ->
+  forall g, (2 * f + 1 <= g)%nat ->
+  sim conv_obj (fun o' x (_ : unit) => nthN (ObjectRef_processed_elements o') idx = Some x)
+      (ObjectRef_get_at_index W trap g (mkObjectRef len es e) idx bs)
+      (obj_get W trap f bs len (map convp es) e idx).
+Proof. exact loops_obj_get. Qed.
+
+Theorem C01_code_obj_prop : forall W trap bs, Forall (fun b => b < 256) bs /\ lenN bs + 9 < 2 ^ W /\ 32 <= W ->
+  forall f key len es e p, sane (lenN bs) p (LObj len (map convp es) e) -> len < 2 ^ W ->
+  snd (obj_prop W trap f bs key len (map convp es) e) <> OutOfFuel ->
+  forall g, (2 * f + 1 <= g)%nat ->
+  sim conv_obj
+      (fun o' (ov : option LazyValueRef) (oi : option N) =>
+         match ov, oi with
+         | Some v, Some i => exists k, nthN (ObjectRef_processed_elements o') i = Some (k, v)
+         | None, None => True
+         | _, _ => False
+         end)
+      (ObjectRef_get_property W trap g (mkObjectRef len es e) key bs)
+      (obj_prop W trap f bs key len (map convp es) e).
+Proof. exact loops_obj_prop. Qed.
+
+(** the methods of [LazyValueRef] that the exported functions call, against what [get_at_index] / [get_obj_key_at_index] /
+    [get_obj_prop] of the reader model do with the node behind the handle (dispatch on the node kind, the error codes
+    NotIndexable / NotAnObject, the child handle [SIdx] / [SVal] / [SKey]) *)
+Theorem C01_code_get_at_index : forall W trap bs, Forall (fun b => b < 256) bs /\ lenN bs + 9 < 2 ^ W /\ 32 <= W ->
+  forall f v idx p, sane (lenN bs) p (conv v) ->
+  match conv v with LArr len _ _ | LObj len _ _ => len | _ => 0 end < 2 ^ W ->
+  let hand := match conv v with
+              | LArr len es e => arr_get W trap f bs len es e idx
+              | LObj len es e => obj_get W trap f bs len es e idx
+              | _ => (conv v, Err E_NotIndexable)
+              end in
+  snd hand <> OutOfFuel ->
+  forall g, (2 * f + 2 <= g)%nat ->
+  sim conv (fun v' x (_ : unit) =>
+              get_node (conv v') [match conv v' with LArr _ _ _ => SIdx idx | _ => SVal idx end] = Some (conv x))
+      (LazyValueRef_get_at_index W trap g v idx bs) hand.
+Proof. exact loops_get_at_index. Qed.
+
+Theorem C01_code_get_key_at_index : forall W trap bs, Forall (fun b => b < 256) bs /\ lenN bs + 9 < 2 ^ W /\ 32 <= W ->
+  forall f v idx p, sane (lenN bs) p (conv v) ->
+  match conv v with LArr len _ _ | LObj len _ _ => len | _ => 0 end < 2 ^ W ->
+  let hand := match conv v with
+              | LObj len es e => obj_get W trap f bs len es e idx
+              | _ => (conv v, Err E_NotAnObject)
+              end in
+  snd hand <> OutOfFuel ->
+  forall g, (2 * f + 2 <= g)%nat ->
+  sim conv (fun v' x (_ : unit) => get_node (conv v') [SKey idx] = Some (conv x))
+      (LazyValueRef_get_key_at_index W trap g v idx bs) hand.
+Proof. exact loops_get_key_at_index. Qed.
+
+Theorem C01_code_get_object_property : forall W trap bs, Forall (fun b => b < 256) bs /\ lenN bs + 9 < 2 ^ W /\ 32 <= W ->
+  forall f v key p, sane (lenN bs) p (conv v) ->
+  match conv v with LArr len _ _ | LObj len _ _ => len | _ => 0 end < 2 ^ W ->
+  let hand := match conv v with
+              | LObj len es e => obj_prop W trap f bs key len es e
+              | _ => (conv v, Err E_NotAnObject)
+              end in
+  snd hand <> OutOfFuel ->
+  forall g, (2 * f + 2 <= g)%nat ->
+  sim conv (fun v' (ov : option LazyValueRef) (oi : option N) =>
+              match ov, oi with
+              | Some x, Some i => get_node (conv v') [SVal i] = Some (conv x)
+              | None, None => True
+              | _, _ => False
+              end)
+      (LazyValueRef_get_object_property W trap g v key bs) hand.
+Proof. exact loops_get_object_property. Qed.
+
+Theorem C01_code_value_length : forall W trap g v,
+  LazyValueRef_get_value_length W trap (S g) v =
+  GOk (match conv v with LStr _ len | LArr len _ _ | LObj len _ _ => len | _ => 0 end).
+Proof. exact loops_get_value_length. Qed.
+
+Theorem C01_code_str_addr : forall W trap g v bs,
+  LazyValueRef_get_utf8_str_addr W trap (S g) v bs =
+  match conv v with
+  | LStr ptr _ => if lenN bs <? ptr then GPanic P_slice else GOk ptr
+  | _ => GOk 0
+  end.
+Proof. exact loops_str_addr. Qed.
+
+(** every node of every state the reader model reaches satisfies the invariant assumed above *)
+Theorem C01_code_loops_reachable : forall W trap bs ops, lenN bs < 2 ^ W -> Forall (fun b => b < 256) bs ->
+  forall h n, node_of (roots (run W trap (fuel_bs bs) bs ops)) h = Some n -> exists p, sane (lenN bs) p n.
+Proof. exact loops_reachable_sane. Qed.
+
+Theorem C01_code_sim_meaning : forall (S A B : Type) (cv : S -> lz) (R : S -> A -> B -> Prop) g h,
+  sim cv R g h <->
+  match g with
+  | GOk (s', ROk a) => cv s' = fst h /\ exists b, snd h = Ok b /\ R s' a b
+  | GOk (s', RErr c) => cv s' = fst h /\ snd h = Err c
+  | GPanic site => site <> P_fuel /\ exists s, snd h = Panic s
+  end.
+Proof. exact (@sim_meaning). Qed.
+
+(** non-vacuity: the generated loops run on a concrete nested document and agree with the model, with the fuel of the statements *)
+Example C01_code_loops_example :
+  let bs := [0x94; 0x01; 0x92; 0x02; 0x92; 0x03; 0x91; 0x04; 0x81; 0xa1; 0x61; 0x92; 0x05; 0x06; 0x07] in
+  match LazyValueRef_new 32 true bs 0 with
+  | GOk (ROk (root, _)) =>
+      snd (finish 32 true 12 bs (conv root)) = Ok (Some 15) /\
+      match LazyValueRef_finish_processing 32 true 24 root bs with
+      | GOk (v', r) => conv v' = fst (finish 32 true 12 bs (conv root)) /\ r = ROk (Some 15)
+      | GPanic _ => False
+      end
+  | _ => False
+  end.
+Proof. vm_compute. repeat split; reflexivity. Qed.
